@@ -82,6 +82,8 @@ def scenarios(ctx):
             # VCF on standard output together with the auxiliary list files: nothing but the VCF may appear there
             o["to_stdout"] = True
             o["lists"] = {"read": rng.random() < 0.8, "gt": bool(o.get("distrust")), "recomb": False}
+        if rng.random() < 0.25:
+            w["nocontig"] = rng.choice(["none", "first"])
         w["opts"] = o
         w["decor_seed"] = rng.randrange(10 ** 6)
         scs.append({"world": w})
@@ -160,6 +162,10 @@ def _decorate(wd, d, paths):
                     "_k": (x["chrom"], p0 + 1, x["order"])})
     out.sort(key=lambda r: r["_k"])
     contigs = [(n, len(s[0])) for n, s in zip(names, seqs)]
+    if wd.get("nocontig") == "none":
+        contigs = []                      # ##contig lines are optional in VCF
+    elif wd.get("nocontig") == "first":
+        contigs = contigs[:1]             # only some contigs declared
     W.write_vcf(paths["vcf"], samples, contigs, out, fmt_keys=tuple(wd["fmt_keys"]),
                 extra_header=('##INFO=<ID=SVTYPE,Number=1,Type=String,Description="sv type">',
                               '##INFO=<ID=END,Number=1,Type=Integer,Description="end">',
